@@ -171,6 +171,21 @@ func c04Second(w *W, t ref.Stamp, fractions bool) {
 	if !fractions {
 		return
 	}
+	// before/after against neighbours at every field granularity (same minute, same hour, same day, ...)
+	for _, dlt := range []int64{1, 7, 20, 45, 59, 60, 61, 600, 3540, 3599, 3600, 3601, 43200, 86399, 86400, 86401, 2678400, 31622400} {
+		for _, sg := range []int64{1, -1} {
+			os2 := t.Secs() + sg*dlt
+			o := ref.FromSecs(os2)
+			if o.Y < minYear || o.Y > maxYear {
+				continue
+			}
+			so := solarOf(o)
+			if so.IsBefore(s) != (os2 < t.Secs()) || so.IsAfter(s) != (os2 > t.Secs()) || s.IsBefore(so) != (t.Secs() < os2) || s.IsAfter(so) != (t.Secs() > os2) {
+				w.Violatef("order", key+"|"+fmtStamp(o), "IsBefore/IsAfter between %s and %s disagree with the second count (%+d s)", key, fmtStamp(o), sg*dlt)
+			}
+			w.Eval(1)
+		}
+	}
 	for _, f := range []float64{-0.4, 0.4, 0.6, -0.6, 0.999, 0.3} {
 		x := jd + f/86400
 		w.Curf("C04 real JD %.10f", x)
